@@ -41,6 +41,11 @@ inductive Pattern
   | notAMap
   /-- a location (cwd, absolute path) is read but cancels out (`c19_location_independent`) -/
   | locationNormalised
+  /-- Go generator text that refers to a package whose import line the generator itself emits
+      under a guard that covers the use: goimports (PostProcess) only formats and drops unused
+      imports; an import left for goimports to ADD would be found by searching around the
+      working directory / output directory — location-dependent, never classified as this -/
+  | explicitImport
   /-- order-SENSITIVE and recorded in KNOWN_FINDINGS.txt (`c19_unstable_sort_counterexample`) -/
   | knownFinding
   /-- a site the committed expectation does not know: broken tie -/
@@ -68,6 +73,7 @@ def Pattern.name : Pattern → String
   | .notOnGenPath => "not-on-generation-path"
   | .notAMap => "not-a-map"
   | .locationNormalised => "location-normalised"
+  | .explicitImport => "explicit-import"
   | .knownFinding => "known-finding"
   | .unclassified => "unclassified"
   | .vanished => "vanished"
